@@ -62,6 +62,29 @@ def run(tier):
     seen = len(seen_keys)
     if seen_keys != set(spec) and rc == 0:
         chk.violation('tables:coverage', 'only %d of %d specification rows were produced by the code' % (seen, len(spec)), {})
+    # the helper with an explicit modulus on the whole (limit, hour) product against the specification's IncMod; the one-day
+    # date helpers on every day against the calendar; each helper leaves the other fields alone
+    rc, out, err, _ = common.run_cmd([exe, 'helpers'], timeout=900)
+    nh = 0
+    if rc != 0 or not out.strip().splitlines() or not out.strip().splitlines()[-1].startswith('done'):
+        chk.violation('helpers:crash', 'perdrv helpers crashed: %s' % err[-600:], {})
+    else:
+        for ln in out.splitlines():
+            f = ln.split()
+            if f[0] == 'hl':
+                limit, h, got = int(f[1]), int(f[2]), int(f[3])
+                e = (h + 1) % 256
+                want = 0 if e >= limit else e          # MC_Period.IncMod
+                nh += 1
+                if got != want:
+                    chk.violation('mutation:incrementHour-limit', 'incrementHour(period, limit=%d) on hour %d gives %d, specification (IncMod) %d' % (limit, h, got, want), {'limit': limit, 'hour': h})
+            elif f[0] == 'day':
+                chk.violation('mutation:one-day:%s' % f[1], '%sOneDay on epoch day %s gives %s-%s-%s, the calendar says otherwise' % ('increment' if f[1] == 'inc' else 'decrement', f[2], f[3], f[4], f[5]), {'day': int(f[2])})
+            elif f[0].startswith('other-fields'):
+                chk.violation('mutation:%s' % f[0], 'an increment helper applied to a value whose field is %s changes another field' % f[1], {'byte': int(f[1])})
+            elif f[0] == 'done':
+                nh += int(f[1])
+    chk.add(helper_cases=nh)
     rc, out, err, _ = common.run_cmd([exe, 'periods'], timeout=900)
     recs = [json.loads(l) for l in out.splitlines() if l.startswith('{')] if rc == 0 else []
     nper = 0
